@@ -53,6 +53,8 @@ var c20Values = map[string]interface{}{
 	"namedfloat":        c20Float(1),
 	"error":             c20Err,
 	"[]struct":          []c20Struct{{1}},
+	"Number(abc)":       json.Number("abc"),   // a json.Number the decoder never produces (compares as 0, like the library's Float64 fallback)
+	"Number(1e999)":     json.Number("1e999"), // a json.Number the decoder does produce with UseNumber: out of float64 range
 	"NaN":               math.NaN(),
 	"+Inf":              math.Inf(1),
 }
